@@ -578,9 +578,14 @@ fn run_step(st: &mut State, step: &Value) -> Value {
             st.log.entries.borrow_mut().clear();
             st.log.budget.set(step.get("budget").and_then(|b| b.as_i64()).unwrap_or(100000));
             let log = Rc::clone(&st.log);
+            // optionally a `Ref` on some handle's gradient slot stays alive while the pass runs (a caller that is still
+            // looking at a gradient): the pass may panic on the borrow, but must not silently lose anything
+            let held = step.get("hold").and_then(|h| h.as_i64()).and_then(|h| st.hs.get(&h));
+            let guard = held.map(|a| a.gradient());
             st.with_args(&args, |xs| {
                 guarded!(xs[0].backward(seed));
             });
+            drop(guard);
             ev.insert("evals".into(), Value::Array(log.entries.borrow_mut().drain(..).collect()));
             ev.insert("budget_left".into(), json!(log.budget.get().max(-1)));
         }
